@@ -775,6 +775,8 @@ MUTANTS = [
            expect_rule="await/sync-outcome-read-before-reset"),
     Mutant("old-callbacks-dropped", D, "    it = it.addErrback(_handleCancelInlineCallbacks, status)\n    it.callbacks.extend(tmp)\n", "    it = it.addErrback(_handleCancelInlineCallbacks, status)\n",
            expect_rule="cancel-hook/steps-present"),
+    Mutant("rotation-of-the-wrong-end", D, "    it.callbacks, tmp = [], it.callbacks\n    it = it.addErrback(_handleCancelInlineCallbacks, status)\n    it.callbacks.extend(tmp)\n",
+           "    it.addErrback(_handleCancelInlineCallbacks, status)\n    it.callbacks = it.callbacks[1:] + it.callbacks[:1]\n", expect_rule="cancel-hook/"),
     Mutant("handler-added-last", D, "    it.callbacks, tmp = [], it.callbacks\n    it = it.addErrback(_handleCancelInlineCallbacks, status)\n    it.callbacks.extend(tmp)\n",
            "    it = it.addErrback(_handleCancelInlineCallbacks, status)\n", expect_rule="cancel-hook/"),
     Mutant("await-stale-result", D, "        while True:\n            if self.paused:\n                # If we're paused, we have no result to give\n                yield self\n                continue\n\n            result = getattr(self, \"result\", _NO_RESULT)\n",
@@ -804,6 +806,14 @@ MUTANTS = [
            "    stopIteration: bool = False\n    callbackValue: Any = None\n    outcomeDeferred = status.deferred\n\n    while 1:\n",
            more=[(D, "            status.deferred.callback(callbackValue)\n            return\n", "            outcomeDeferred.callback(callbackValue)\n            return\n")],
            expect_rule="fire/reads-current-result-deferred"),
+    Mutant("marker-cell-re-armed-with-the-wrong-marker", D, "    waiting: List[Any] = [True, None]\n\n    stopIteration: bool = False\n", "    waiting: List[Any] = [_HERE]\n\n    stopIteration: bool = False\n",
+           more=[(D, "    if waiting[0]:\n        waiting[0] = False\n        waiting[1] = r\n    else:\n        _inlineCallbacks(r, gen, status, context)\n",
+                  "    if waiting[0] is _GONE:\n        _inlineCallbacks(r, gen, status, context)\n        return\n    waiting[0] = r\n"),
+                 (D, "            if waiting[0]:\n                # Haven't called back yet, set flag so that we get reinvoked\n                # and return from the loop\n                waiting[0] = False\n                status.waitingOn",
+                  "            if waiting[0] is _HERE:\n                waiting[0] = _GONE\n                status.waitingOn"),
+                 (D, "            result = waiting[1]\n", "            result = waiting[0]\n"),
+                 (D, "            # branch above would have been taken.\n\n            waiting[0] = True\n            waiting[1] = None\n", "            # branch above would have been taken.\n\n            waiting[0] = _GONE\n"),
+                 (D, "def _gotResultInlineCallbacks(\n", "_HERE = object()\n_GONE = object()\n\n\ndef _gotResultInlineCallbacks(\n")], expect_rule=None),
 ]
 SILENT = [
     Silent("cancel-attribute-directly", D, "    awaited = status.waitingOn\n    assert awaited is not None\n    awaited.cancel()\n", "    assert status.waitingOn is not None\n    status.waitingOn.cancel()\n"),
@@ -850,4 +860,19 @@ SILENT = [
     Silent("await-polls-in-the-loop-condition", D,
            "        while True:\n            if self.paused:\n                # If we're paused, we have no result to give\n                yield self\n                continue\n\n            result = getattr(self, \"result\", _NO_RESULT)\n            if result is _NO_RESULT:\n                yield self\n                continue\n\n            if isinstance(result, Failure):\n                # Clear the failure on debugInfo so it doesn't raise \"unhandled\n                # exception\"\n                assert self._debugInfo is not None\n                self._debugInfo.failResult = None\n                result.raiseException()\n            else:\n                return result  # type: ignore[return-value]\n",
            "        while self.paused or (outcome := getattr(self, \"result\", _NO_RESULT)) is _NO_RESULT:\n            yield self\n        if isinstance(outcome, Failure):\n            assert self._debugInfo is not None\n            self._debugInfo.failResult = None\n            outcome.raiseException()\n        return outcome\n"),
+    Silent("one-slot-cell-with-private-markers", D, "    waiting: List[Any] = [True, None]\n\n    stopIteration: bool = False\n", "    waiting: List[Any] = [_HERE]\n\n    stopIteration: bool = False\n",
+           more=[(D, "    if waiting[0]:\n        waiting[0] = False\n        waiting[1] = r\n    else:\n        _inlineCallbacks(r, gen, status, context)\n",
+                  "    if waiting[0] is _GONE:\n        _inlineCallbacks(r, gen, status, context)\n        return\n    waiting[0] = r\n"),
+                 (D, "            if waiting[0]:\n                # Haven't called back yet, set flag so that we get reinvoked\n                # and return from the loop\n                waiting[0] = False\n                status.waitingOn",
+                  "            if waiting[0] is _HERE:\n                waiting[0] = _GONE\n                status.waitingOn"),
+                 (D, "            result = waiting[1]\n", "            result = waiting[0]\n"),
+                 (D, "            # branch above would have been taken.\n\n            waiting[0] = True\n            waiting[1] = None\n", "            # branch above would have been taken.\n\n            waiting[0] = _HERE\n"),
+                 (D, "def _gotResultInlineCallbacks(\n", "_HERE = object()\n_GONE = object()\n\n\ndef _gotResultInlineCallbacks(\n")]),
+    Silent("handler-added-then-rotated-to-the-front", D, "    it.callbacks, tmp = [], it.callbacks\n    it = it.addErrback(_handleCancelInlineCallbacks, status)\n    it.callbacks.extend(tmp)\n",
+           "    it.addErrback(_handleCancelInlineCallbacks, status)\n    it.callbacks = it.callbacks[-1:] + it.callbacks[:-1]\n"),
+    Silent("return-value-in-a-marker-initialised-local", D, "    stopIteration: bool = False\n    callbackValue: Any = None\n", "    answer: Any = _NO_RESULT\n",
+           more=[(D, "            stopIteration = True\n            callbackValue = getattr(e, \"value\", None)\n", "            answer = getattr(e, \"value\", None)\n"),
+                 (D, "            stopIteration = True\n            callbackValue = e.value\n", "            answer = e.value\n"),
+                 (D, "        if stopIteration:\n", "        if answer is not _NO_RESULT:\n"),
+                 (D, "            status.deferred.callback(callbackValue)\n", "            status.deferred.callback(answer)\n")]),
 ]
